@@ -11,7 +11,7 @@ GAMMAS = [[1, 4], [1, 2], [3, 4], [1, 1], [0, 1]]
 
 def jobs_for(tier, rng):
     jobs = []
-    n_inst = 32 if tier == "quick" else 200
+    n_inst = 32 if tier == "quick" else 600
     n_inj = 6 if tier == "quick" else 10
     for k in range(n_inst):
         m = gen.union(rng, rng.randint(8, 30), rmax=rng.choice([3, 3, 8]), v0max=2,
@@ -24,7 +24,7 @@ def jobs_for(tier, rng):
             mbs = 5
         g = GAMMAS[k % len(GAMMAS)]
         jobs.append({"mdp": m, "kind": "VI", "gamma": g, "eps": [1, 6], "test": rng.choice(["span", "max_diff"]),
-                     "calls": [1], "mbs": mbs,
+                     "calls": [1], "mbs": mbs, "gamma_as_int": k % 2 == 0, "eps_as_int": False,
                      "injects": [{"v": gen.rand_values(rng, ns, vmax=rng.choice([4, 9, 40]))}
                                  for _ in range(n_inj)],
                      "tag": f"inst{k}"})
